@@ -8,6 +8,7 @@ from pymodbus.datastore import (ModbusSequentialDataBlock, ModbusSparseDataBlock
                                 ModbusServerContext)
 
 TABLES = 'cdih'
+CTORS = [None, None, None, 'tuple', 'iter', 'gen', 'map']
 
 
 def block_spec(r, boolean, small=True):
@@ -17,7 +18,11 @@ def block_spec(r, boolean, small=True):
         size = r.choice([1, 2, 8, 16, 40, 64]) if small else r.choice([1, 64, 536, 2000])
         size = min(size, 65536 - start)      # blocks stay inside the 16-bit address space
         vals = [(r.random() < 0.5) if boolean else r.randrange(65536) for _ in range(size)]
-        return {'type': 'seq', 'start': start, 'values': vals}
+        spec = {'type': 'seq', 'start': start, 'values': vals}
+        how = r.choice(CTORS)
+        if how:
+            spec['ctor'] = how       # handed to the constructor as a tuple / one-shot iterable
+        return spec
     base = r.choice([0, 1, 5, 40])
     keys = sorted(set(base + r.randrange(0, 40) for _ in range(r.randint(1, 24))))
     if r.random() < 0.5:
@@ -41,6 +46,20 @@ def unit_layout(r, share=False, small=True):
     return lay
 
 
+def via_ctor(vals, how):
+    """the initial values of a sequential block as the application may hand them over: a list, a tuple, or something that can be
+    walked once only (generator expression, iterator, map object)"""
+    if how == 'tuple':
+        return tuple(vals)
+    if how == 'iter':
+        return iter(list(vals))
+    if how == 'gen':
+        return (v for v in list(vals))
+    if how == 'map':
+        return map(lambda v: v, list(vals))
+    return vals
+
+
 def make_block(spec, pool=None):
     """pool: {tuple(values): list} - when given, blocks with equal initial values are constructed from ONE caller-side list
     object (an application that writes `init = [0] * 32` once and builds several blocks from it)"""
@@ -48,7 +67,7 @@ def make_block(spec, pool=None):
         vals = list(spec['values'])
         if pool is not None:
             vals = pool.setdefault((type(vals[0]).__name__ if vals else '', tuple(vals)), vals)
-        return ModbusSequentialDataBlock(spec['start'], vals)
+        return ModbusSequentialDataBlock(spec['start'], via_ctor(vals, spec.get('ctor')) if pool is None else vals)
     return ModbusSparseDataBlock({int(k): v for k, v in spec['cells'].items()})
 
 
